@@ -270,3 +270,46 @@ Fixpoint run_ops (tf : option transformer) (ops : list op) (s : rstate) : list o
       let '(b, ok, s') := to_bytes_t tf s in
       OutUnmarshal (if ok then Some b else None) :: run_ops tf r s'
   end.
+
+(* ====================================================================== *)
+(* SetOutputFile: the file system as state across exchanges               *)
+(* ====================================================================== *)
+(* middleware.go handleDownload: file = outputFile, prefixed with Client.outputDirectory when
+   that is set and the name is not absolute, filepath.Clean'ed (the names considered are
+   clean); directories are created; os.Create = create or TRUNCATE; io.Copy.  The content of
+   the file afterwards is what was written, whatever the file held before. *)
+Definition store := list (bytes * bytes).    (* path -> content *)
+
+Fixpoint store_get (p : bytes) (st : store) : option bytes :=
+  match st with
+  | [] => None
+  | (q, c) :: r => if bytes_eqb p q then Some c else store_get p r
+  end.
+
+Fixpoint store_put (p c : bytes) (st : store) : store :=
+  match st with
+  | [] => [(p, c)]
+  | (q, c0) :: r => if bytes_eqb p q then (q, c) :: r else (q, c0) :: store_put p c r
+  end.
+
+Definition is_abs (p : bytes) : bool := match p with x :: _ => beqb x "/"%byte | [] => false end.
+
+Definition output_path (dir file : bytes) : bytes :=
+  match dir with
+  | [] => file
+  | _ => if is_abs file then file else dir ++ "/"%byte :: file
+  end.
+
+Definition download_to_file (st : store) (dir file written : bytes) : store :=
+  store_put (output_path dir file) written st.
+
+(* a sequence of exchanges of one client, each saving its body to a file *)
+Fixpoint download_all (st : store) (dir : bytes) (steps : list (bytes * Z * bytes)) : list store :=
+  match steps with
+  | [] => []
+  | (file, code, body) :: r =>
+      let d := finish {| c_disable_auto := false; c_save := true; c_cap := None; c_callback := false;
+                         c_result := false; c_tf := None |} code {| rd_rem := body; rd_end := BEof |} in
+      let st' := download_to_file st dir file (a_out d) in
+      st' :: download_all st' dir r
+  end.
